@@ -1120,6 +1120,24 @@ map_string (svalue_t * arg, int num_arg)
 #ifdef F_SORT_ARRAY
 static function_to_call_t *sort_array_ftc;
 
+/* Active sort_array() calls that use an LPC callback, innermost first.  The comparison function handed to
+ * quickSort() finds its callback through the global above; an error() raised inside a nested sort_array()
+ * longjmps over the code that restores the global, so every activation also leaves a T_ERROR_HANDLER on the
+ * evaluator stack that unlinks it when the stack is unwound. */
+typedef struct sort_ctx_s {
+  function_to_call_t ftc;
+  struct sort_ctx_s *prev;
+} sort_ctx_t;
+static sort_ctx_t *sort_ctx_top = 0;
+
+static void sort_array_unlink (void) {
+  sort_ctx_t *c = sort_ctx_top;
+
+  sort_ctx_top = c->prev;
+  sort_array_ftc = sort_ctx_top ? &sort_ctx_top->ftc : 0;
+  FREE ((char *) c);
+}
+
 #define COMPARE_NUMS(x,y) (x < y ? -1 : (x > y ? 1 : 0))
 
 array_t* builtin_sort_array (array_t * inlist, int dir) {
@@ -1296,19 +1314,26 @@ f_sort_array (void)
          * to it in a global, being careful to save and restore the old
          * value.
          */
-        function_to_call_t ftc, *old_ptr;
+        function_to_call_t ftc;
+        sort_ctx_t *ctx;
 
-        old_ptr = sort_array_ftc;
-        sort_array_ftc = &ftc;
-        process_efun_callback (1, &ftc, F_SORT_ARRAY);
+        process_efun_callback (1, &ftc, F_SORT_ARRAY);	/* may raise an error: nothing is linked yet */
+        ctx = ALLOCATE (sort_ctx_t, TAG_TEMPORARY, "f_sort_array");
+        ctx->ftc = ftc;
+        ctx->prev = sort_ctx_top;
+        sort_ctx_top = ctx;
+        sort_array_ftc = &ctx->ftc;
+        (++sp)->type = T_ERROR_HANDLER;
+        sp->u.error_handler = sort_array_unlink;
 
         STACK_CHECK (1);
         push_refed_array (copy_array (tmp));	/* see above */
         tmp = sp->u.arr;
         quickSort ((char *) tmp->item, tmp->size, sizeof (tmp->item),
                    sort_array_cmp);
-        sp--;
-        sort_array_ftc = old_ptr;
+        sp--;			/* the working copy: it is the result now */
+        sp--;			/* the error handler: not needed any more */
+        sort_array_unlink ();
         break;
       }
     }
